@@ -34,6 +34,7 @@ type c03Desc struct {
 	Order  []string `json:"order"`
 	Dirs   int      `json:"dirs"`
 	Odd    bool     `json:"odd_names"`
+	Gap    int      `json:"gap_ms_after_rt_next,omitempty"` // let the init sequence run on after the runtime's first next before the next step is issued
 }
 
 func subsOf(s string) []string {
@@ -118,8 +119,9 @@ func c03Steps(ne, ni int) ([]bStep, [][]int) {
 	for i := 0; i < ni; i++ {
 		r := idx[fmt.Sprintf("i%d.register", i)]
 		preds[idx[fmt.Sprintf("i%d.next", i)]] = []int{r}
-		// an internal registration after the runtime's first next is refused: keep it before
-		preds[idx["rt.next"]] = append(preds[idx["rt.next"]], r)
+		// no constraint against rt.next: an internal registration issued after the runtime's
+		// first next is either refused (RegistrationClosed) or, if it was still accepted,
+		// makes that extension a party the barrier has to wait for
 	}
 	return steps, preds
 }
@@ -163,6 +165,7 @@ func genC03(tier string, seed int64) []Case {
 			}
 			d.Dirs = oi % 2
 			d.Odd = oi%3 == 0
+			d.Gap = 3 * ((oi / 2) % 2)
 			add(d)
 		}
 	}
@@ -186,7 +189,7 @@ func genC03(tier string, seed int64) []Case {
 			for _, s1 := range extSubsAll {
 				for _, si := range []string{"I", ""} {
 					for _, k := range keys {
-						add(c03Desc{Ext: []string{s0, s1}, Int: []string{si}, Order: orderNames(steps, last[k]), Dirs: 1})
+						add(c03Desc{Ext: []string{s0, s1}, Int: []string{si}, Order: orderNames(steps, last[k]), Dirs: 1, Gap: 3})
 					}
 				}
 			}
@@ -205,7 +208,7 @@ func genC03(tier string, seed int64) []Case {
 		steps, preds := c03Steps(ne, ni)
 		// random linear extension
 		ord := randomLinearExtension(len(steps), preds, r)
-		d := c03Desc{Order: orderNames(steps, ord), Dirs: r.Intn(3), Odd: r.Intn(2) == 0}
+		d := c03Desc{Order: orderNames(steps, ord), Dirs: r.Intn(3), Odd: r.Intn(2) == 0, Gap: 3 * r.Intn(2)}
 		for e := 0; e < ne; e++ {
 			d.Ext = append(d.Ext, extSubsAll[r.Intn(4)])
 		}
@@ -335,6 +338,9 @@ func runC03(c *Ctx, d c03Desc) {
 			a := vh.Go(func() *vh.Resp { return pt.Next() })
 			pending["rt"] = a
 			vh.Settle(a, func() bool { return w.E.RuntimeState() == "Ready" }, 3*time.Second)
+			if d.Gap > 0 {
+				time.Sleep(time.Duration(d.Gap) * time.Millisecond)
+			}
 		case party[0] == 'e':
 			e, _ := strconv.Atoi(party[1:])
 			pt := getExt(e)
@@ -365,15 +371,40 @@ func runC03(c *Ctx, d c03Desc) {
 				return
 			}
 			if op == "register" {
+				_, rtAsked := pending["rt"]
+				delivered := rtAsked && pending["rt"].Done()
 				r := pt.Register(intName(i), subsOf(d.Int[i]), "")
 				regOK[party] = r.Status == 200
-				c.Check(r.Status == 200, "register_accepted", fmt.Sprintf("C03/int-register-refused/%d/%s", r.Status, r.Etype), "registration of an internal extension before the runtime's first next was refused", stepName)
+				closed := r.Status == 403 && r.Etype == "Extension.RegistrationClosed"
+				switch {
+				case !rtAsked:
+					c.Check(r.Status == 200, "register_accepted", fmt.Sprintf("C03/int-register-refused/%d/%s", r.Status, r.Etype), "registration of an internal extension before the runtime's first next was refused", stepName)
+				case delivered:
+					c.Check(closed, "late_register_refused", fmt.Sprintf("C03/late-register/%d/%s", r.Status, r.Etype), "registration after the first delivery was not refused with Extension.RegistrationClosed", stepName)
+				default:
+					// after the runtime's first next, before the first delivery: closed, or accepted and then waited for
+					c.Check(closed || r.Status == 200, "late_register_closed_or_counted", fmt.Sprintf("C03/int-late-register/%d/%s", r.Status, r.Etype), "internal registration after the runtime's first next was neither accepted nor refused with RegistrationClosed", stepName)
+					if r.Status == 200 {
+						c.Counter("late_internal_registration_accepted", 1)
+					} else {
+						c.Counter("late_internal_registration_refused", 1)
+					}
+				}
+			} else if !regOK[party] {
+				// registration was refused: not a party of the barrier
+				c.Counter("skipped_next_of_refused_registrant", 1)
 			} else {
 				a := vh.Go(func() *vh.Resp { return pt.ExtNext() })
 				pending[party] = a
 				name := intName(i)
 				vh.Settle(a, func() bool { return w.E.ExtState(name) == "Ready" }, 3*time.Second)
 			}
+		}
+		// with a gap configured, give the emulator time to act on this arrival (complete init,
+		// dispatch a waiting invocation) before the next party moves: a delivery that should
+		// not happen then shows up BEFORE the remaining parties have asked for next
+		if d.Gap > 0 && op == "next" && party != "rt" {
+			time.Sleep(time.Duration(d.Gap) * time.Millisecond)
 		}
 		// record states seen at this quiescent point
 		st := w.E.State()
@@ -418,7 +449,13 @@ func runC03(c *Ctx, d c03Desc) {
 		}
 	}
 	c.Check(firstDelivery > lastArrival, "no_delivery_before_all_arrived", "C03/early-delivery", fmt.Sprintf("%s received an event (seq %d) before the last party asked for next (seq %d)", who, firstDelivery, lastArrival), nil)
-	c.Check(len(firstNextCall) == 1+ne+ni, "arrivals_counted", "C03/harness-arrivals", "harness did not record all arrivals", len(firstNextCall))
+	nInt := 0
+	for i := 0; i < ni; i++ {
+		if regOK[fmt.Sprintf("i%d", i)] {
+			nInt++
+		}
+	}
+	c.Check(len(firstNextCall) == 1+ne+nInt, "arrivals_counted", "C03/harness-arrivals", "harness did not record all arrivals", len(firstNextCall))
 
 	// (a) launched multiset == non-directory entries, names, no directory launched
 	var launched []string
@@ -718,8 +755,19 @@ func runC04(c *Ctx, d c04Desc) {
 	perParty := map[string][]string{}
 	for i, order := range d.Orders {
 		trace := fmt.Sprintf("Root=1-%08x-c04c04c04c04c04c04c04c04;Parent=%016x;Sampled=1", i+1, i+7)
-		if i%3 == 2 {
+		// the property says "the caller's trace header value": whatever the caller sent,
+		// in whatever shape, must reach the extensions verbatim
+		switch (i + len(d.Ext) + 2*len(d.Int)) % 7 {
+		case 2:
 			trace = ""
+		case 3: // no Parent, with Lineage
+			trace = fmt.Sprintf("Root=1-%08x-c04c04c04c04c04c04c04c04;Sampled=0;Lineage=a87bd80c:1|68fd508a:5", i+1)
+		case 4: // reordered fields, no Sampled
+			trace = fmt.Sprintf("Parent=%016x;Root=1-%08x-c04c04c04c04c04c04c04c04", i+7, i+1)
+		case 5: // no Root at all
+			trace = fmt.Sprintf("Parent=%016x;Sampled=1", i+7)
+		case 6: // not an X-Ray header at all
+			trace = fmt.Sprintf("opaque-trace-value-%d", i)
 		}
 		inv := w.E.InvokeAsync([]byte(fmt.Sprintf("event-%d", i)), vh.InvokeOpts{ARN: arn, TraceID: trace})
 		ev := rtNext.Wait(5 * time.Second)
